@@ -146,6 +146,17 @@ fn main() {
     println(k);
 }
 `,
+	// string literals with every kind of character: a variant is printed and parsed again
+	"characters-in-strings": `fn main() {
+    let bell = "a\x07b"; let vt = "c\x0bd"; let ff = "e\x0cf"; let nul = "g\x00h"; let esc = "i\x1bj"; let del = "k\x7fl";
+    let o = new { "k\x07ey": 1, plain: "t\tab\nnl\rcr \\ \" ' é 日本 😀" };
+    println(bell.len(), vt.len(), ff.len(), nul.len(), esc.len(), del.len());
+    println(bell == "a\x07b", vt + ff, o.plain, o.keys());
+    let i = 0;
+    while i < 2 { i += 1; println("loop\x0c" + i.to_string()); }
+    if bell.len() * 2 == 6 { println("six\x0b"); }
+}
+`,
 	"guarded": `fn find(limit: int) -> int {
     let acc = 0;
     for i in 0..20 {
